@@ -1666,6 +1666,10 @@ fn e2e_case(run: &Run, case_seed: u64, second_solves: usize) {
     run.observe("e2e_problem_shape", &p.shape);
     run.observe("e2e_seed", if first.unassigned.is_empty() { "all-assigned" } else { "with-unassigned" });
 
+    // the solver's own context (vrp-core RefinementContext) in front of each population kind: what it reports as ranking
+    // after every offer must start with something no worse than the best solution offered so far, and be sorted
+    facade_clause(run, &problem, &env, &first, &mut rng, &artefact_base);
+
     for k in 0..second_solves {
         let choice = match (k + rng.usize_below(4)) % 4 {
             0 => PopChoice::Default,
@@ -1777,6 +1781,75 @@ fn e2e_case(run: &Run, case_seed: u64, second_solves: usize) {
 }
 
 /// `Solution` has no `Clone`; a copy is obtained field by field with the public deep copies.
+fn facade_clause(run: &Run, problem: &Arc<Problem>, env: &Arc<Environment>, first: &Solution, rng: &mut Rng, artefact_base: &dyn Fn(Value) -> Value) {
+    use rosomaxa::prelude::HeuristicContext;
+    let choices = [
+        PopChoice::Greedy { selection_size: rng.range_usize(1, 4) },
+        PopChoice::Elitism { max_size: rng.range_usize(1, 4), selection_size: rng.range_usize(1, 4) },
+        // a large initial size keeps the population in its initial phase for all offers, a small one leaves it
+        PopChoice::Rosomaxa { initial_size: *rng.pick(&[4usize, 16]), selection_size: rng.range_usize(2, 8), elite_size: rng.range_usize(1, 3), node_size: rng.range_usize(1, 3), exploration_ratio: 0.9 },
+    ];
+    for choice in choices.iter() {
+        let outcome = run.guard(|| -> Result<Option<(String, Value)>, String> {
+            let population: TargetPopulation = match choice {
+                PopChoice::Greedy { selection_size } => Box::new(GreedyPopulation::new(problem.goal.clone(), *selection_size, None)),
+                PopChoice::Elitism { max_size, selection_size } => Box::new(ElitismPopulation::new(problem.goal.clone(), env.random.clone(), *max_size, *selection_size)),
+                PopChoice::Rosomaxa { initial_size, selection_size, elite_size, node_size, exploration_ratio } => {
+                    let config = RosomaxaConfig {
+                        initial_size: *initial_size,
+                        selection_size: *selection_size,
+                        elite_size: *elite_size,
+                        node_size: *node_size,
+                        exploration_ratio: *exploration_ratio,
+                        ..RosomaxaConfig::new_with_defaults(*selection_size)
+                    };
+                    Box::new(RosomaxaPopulation::new(Footprint::new(problem.as_ref()), problem.goal.clone(), env.clone(), config).map_err(|e| e.to_string())?)
+                }
+                PopChoice::Default => return Ok(None),
+            };
+            let mut ctx = RefinementContext::new(problem.clone(), population, TelemetryMode::None, env.clone());
+            // offers from worst to best and back: nothing assigned, the solved tours, nothing assigned again, ...
+            let empty = || InsertionContext::new(problem.clone(), env.clone());
+            let solved = || InsertionContext::new_from_solution(problem.clone(), (copy_solution(first), None), env.clone());
+            let mut best: Option<InsertionContext> = None;
+            for step in 0..6 {
+                let offer = if step % 3 == 1 { solved() } else { empty() };
+                let copy = offer.deep_copy();
+                if best.as_ref().is_none_or(|b| problem.goal.total_order(&copy, b) == Ordering::Less) {
+                    best = Some(copy);
+                }
+                if step < 4 {
+                    ctx.on_initial(offer, Timer::start());
+                } else {
+                    ctx.on_generation(vec![offer], 0.1, Timer::start());
+                }
+                let ranked: Vec<&InsertionContext> = ctx.ranked().collect();
+                let best = best.as_ref().unwrap();
+                let fit = |c: &InsertionContext| problem.goal.fitness(c).collect::<Vec<_>>();
+                if let Some(head) = ranked.first() {
+                    if problem.goal.total_order(head, best) == Ordering::Greater {
+                        return Ok(Some((format!("first-ranked-worse-than-offered|step={}", if step < 4 { "on_initial" } else { "on_generation" }), json!({"step": step, "first_ranked": fit(head), "best_offered": fit(best), "ranked": ranked.iter().map(|c| fit(c)).collect::<Vec<_>>()}))));
+                    }
+                } else {
+                    return Ok(Some(("ranked-empty-after-offer".to_string(), json!({"step": step}))));
+                }
+                if ranked.windows(2).any(|w| problem.goal.total_order(w[0], w[1]) == Ordering::Greater) {
+                    return Ok(Some(("ranked-not-sorted".to_string(), json!({"step": step, "ranked": ranked.iter().map(|c| fit(c)).collect::<Vec<_>>()}))));
+                }
+            }
+            Ok(None)
+        });
+        run.eval();
+        run.observe("facade", choice.name());
+        match outcome {
+            Ok(Ok(None)) => {}
+            Ok(Ok(Some((what, extra)))) => run.violation(&format!("C08|context-facade|{}|{what}", choice.name()), &format!("RefinementContext::ranked() in front of a {} population: {what}", choice.name()), artefact_base(extra)),
+            Ok(Err(e)) => run.inconclusive(&format!("facade: population refused: {}", vverif::clip(&e, 60))),
+            Err(info) => run.violation(&format!("C08|context-facade|{}|panic|{}", choice.name(), info.file()), &format!("RefinementContext panicked: {} at {}", info.message, info.location), artefact_base(info.to_json())),
+        }
+    }
+}
+
 fn copy_solution(s: &Solution) -> Solution {
     Solution {
         cost: s.cost,
@@ -1842,7 +1915,10 @@ fn replay(run: &Run, path: &std::path::Path) {
     let art = doc.get("artefact").cloned().unwrap_or(Value::Null);
     let Some(case_seed) = art.get("case_seed").and_then(|v| v.as_u64()) else {
         run.inconclusive("replay: artefact has no case_seed");
-        run.floor("replayed cases", 0, 1);
+        for kind in ["greedy", "elitism", "rosomaxa"] {
+        run.floor(&format!("solver context facade in front of a {kind} population"), run.observed("facade", kind), 3);
+    }
+    run.floor("replayed cases", 0, 1);
         return;
     };
     match art.get("part").and_then(|v| v.as_str()) {
